@@ -290,7 +290,8 @@ func (g *c04Gen) decodeCase(name string, mk func() interface{}, show func(interf
 	p := mk()
 	var rest []byte
 	var err error
-	if pan := verifkit.Guard(func() { rest, err = tls.Unmarshal(data, p) }); pan != "" {
+	buf := append([]byte{}, data...) // the decoder sees a private copy, which is overwritten afterwards (see below)
+	if pan := verifkit.Guard(func() { rest, err = tls.Unmarshal(buf, p) }); pan != "" {
 		g.out.Fail("panic "+op, pan)
 		return
 	}
@@ -311,6 +312,7 @@ func (g *c04Gen) decodeCase(name string, mk func() interface{}, show func(interf
 	} else {
 		g.out.Count("class:dec-ok")
 	}
+	rest = append([]byte{}, rest...)
 	consumed := data[:len(data)-len(rest)]
 	re, ok, _ := c04Marshal(reflect.ValueOf(p).Elem().Interface())
 	if !ok || !bytes.Equal(re, consumed) {
@@ -318,6 +320,18 @@ func (g *c04Gen) decodeCase(name string, mk func() interface{}, show func(interf
 		return
 	}
 	g.out.T(op, "ok "+s+" rest="+hx(rest))
+	// the caller reuses or scrubs its input buffer while holding the result (a read buffer refilled with the next message):
+	// the decoded value is a value, not a view of the input — it still shows and re-encodes as before
+	g.out.Count("mode:input-overwritten")
+	for i := range buf {
+		buf[i] ^= 0xa5
+	}
+	sA, _ := show(p)
+	reA, okA, _ := c04Marshal(reflect.ValueOf(p).Elem().Interface())
+	if sA != s || !okA || !bytes.Equal(reA, consumed) {
+		g.out.Fail("alias "+op, fmt.Sprintf("after the input buffer was overwritten the decoded value changed from {%s} to {%s}; it re-encodes as %s instead of the bytes it was decoded from", s, sA, hx(reA)))
+		return
+	}
 	// the same bytes decoded into a destination that already holds an earlier value of the structure (a client reusing a
 	// variable, a pooled struct): the result must be what the fresh decode gave — nothing of the old value may survive
 	if g.reuse == nil {
@@ -704,7 +718,8 @@ func (g *c04Gen) rawLogEntry(leafEnc []byte, e c04Entry) {
 		op := "LEAF " + hx(c.leaf) + " " + hx(c.extra)
 		var rle *RawLogEntry
 		var err error
-		if pan := verifkit.Guard(func() { rle, err = RawLogEntryFromLeaf(7, &LeafEntry{LeafInput: c.leaf, ExtraData: c.extra}) }); pan != "" {
+		leafBuf, extraBuf := append([]byte{}, c.leaf...), append([]byte{}, c.extra...)
+		if pan := verifkit.Guard(func() { rle, err = RawLogEntryFromLeaf(7, &LeafEntry{LeafInput: leafBuf, ExtraData: extraBuf}) }); pan != "" {
 			g.out.Fail("panic "+op, pan)
 			continue
 		}
@@ -721,7 +736,18 @@ func (g *c04Gen) rawLogEntry(leafEnc []byte, e c04Entry) {
 			g.out.T(op, "err")
 			continue
 		}
-		g.out.T(op, fmt.Sprintf("ok %s cert=%s chain %s", showLeaf(&rle.Leaf), hx(rle.Cert.Data), showChain(rle.Chain)))
+		shown := fmt.Sprintf("ok %s cert=%s chain %s", showLeaf(&rle.Leaf), hx(rle.Cert.Data), showChain(rle.Chain))
+		g.out.T(op, shown)
+		// the get-entries response buffer is reused for the next batch while the entry is still held
+		for i := range leafBuf {
+			leafBuf[i] ^= 0xa5
+		}
+		for i := range extraBuf {
+			extraBuf[i] ^= 0xa5
+		}
+		if after := fmt.Sprintf("ok %s cert=%s chain %s", showLeaf(&rle.Leaf), hx(rle.Cert.Data), showChain(rle.Chain)); after != shown {
+			g.out.Fail("alias "+op, "after leaf_input / extra_data were overwritten the RawLogEntry changed to: "+after)
+		}
 	}
 }
 
@@ -1172,7 +1198,7 @@ func (g *c04Gen) c04ChainLeaves(round int) {
 			panic(err)
 		}
 		c, err := x509.ParseCertificate(der)
-		if err != nil {
+		if x509.IsFatal(err) {
 			panic(err)
 		}
 		return c
@@ -1313,6 +1339,98 @@ func (g *c04Gen) c04ChainLeaves(round int) {
 	}
 	if _, err := MerkleTreeLeafForEmbeddedSCT([]*x509.Certificate{withSCT}, ts); err == nil {
 		g.out.Fail("chainleaf embedded-sct-no-issuer", "MerkleTreeLeafForEmbeddedSCT accepted a chain without issuer")
+	}
+	// Entries whose certificate draws only NON-FATAL complaints from the lax parser (logs hold plenty of those): leaf_input and
+	// extra_data are valid encodings, so LogEntryFromLeaf / ToLogEntry / Leaf.X509Certificate() / Leaf.Precertificate() hand back the
+	// entry (certificate) and an error for which x509.IsFatal is false — which is how client.GetEntries and the scanner decide
+	// whether to keep the entry.
+	sanBadIP := pkix.Extension{Id: x509.OIDExtensionSubjectAltName, Value: append([]byte{0x30, 0x07 + byte(2+len(name)), 0x87, 0x05, 10, 0, 0, 1, byte(r.Intn(256)), 0x82, byte(len(name))}, name...)}
+	sctTrunc := pkix.Extension{Id: x509.OIDExtensionCTSCT, Value: []byte{0x04, 0x03, 0x00, 0x05, byte(r.Intn(256))}} // SCT list declaring 5 bytes, holding 1
+	bare := func(extra ...pkix.Extension) *x509.Certificate {
+		t := leafT(extra...)
+		t.DNSNames = nil
+		return t
+	}
+	type nf struct {
+		name  string
+		chain []*x509.Certificate
+		etype LogEntryType
+		soft  bool // the parser has non-fatal complaints about the entry's certificate
+	}
+	nfCases := []nf{
+		{"x509-clean", []*x509.Certificate{plain, ca}, X509LogEntryType, false},
+		{"x509-san-5-byte-ip", []*x509.Certificate{mk(bare(sanBadIP), ca, &leafKey.PublicKey, caKey), ca}, X509LogEntryType, true},
+		{"x509-truncated-sct-list", []*x509.Certificate{mk(leafT(sctTrunc), ca, &leafKey.PublicKey, caKey), ca}, X509LogEntryType, true},
+		{"precert-clean", []*x509.Certificate{preDirect, ca}, PrecertLogEntryType, false},
+		{"precert-san-5-byte-ip", []*x509.Certificate{mk(bare(poison, sanBadIP), ca, &leafKey.PublicKey, caKey), ca}, PrecertLogEntryType, true},
+		{"precert-preissuer-san-5-byte-ip", []*x509.Certificate{mk(bare(poison, sanBadIP), pi, &leafKey.PublicKey, preKey), pi, ca}, PrecertLogEntryType, true},
+	}
+	for _, c := range nfCases {
+		g.out.Count("mode:nonfatal-entry")
+		ts := g.u64()
+		idx := int64(r.Intn(1 << 20))
+		key := fmt.Sprintf("%s etype=%d certlen=%d index=%d ts=%d", c.name, c.etype, len(c.chain[0].Raw), idx, ts)
+		if _, perr := x509.ParseCertificate(c.chain[0].Raw); x509.IsFatal(perr) || (perr != nil) != c.soft {
+			g.out.Fail("nonfatal-setup "+key, fmt.Sprintf("the generated certificate parses with err=%v, expected non-fatal complaints=%v", perr, c.soft))
+			continue
+		}
+		l, err := MerkleTreeLeafFromChain(c.chain, c.etype, ts)
+		if err != nil {
+			g.out.Fail("nonfatal-entry "+key, "MerkleTreeLeafFromChain: "+err.Error())
+			continue
+		}
+		leafInput := marshal(l)
+		var rest []ASN1Cert
+		for _, x := range c.chain[1:] {
+			rest = append(rest, ASN1Cert{Data: x.Raw})
+		}
+		var extraData []byte
+		if c.etype == X509LogEntryType {
+			extraData, _, _ = c04Marshal(CertificateChain{Entries: rest})
+		} else {
+			extraData, _, _ = c04Marshal(PrecertChainEntry{PreCertificate: ASN1Cert{Data: c.chain[0].Raw}, CertificateChain: rest})
+		}
+		le := &LeafEntry{LeafInput: leafInput, ExtraData: extraData}
+		var e1, e2 *LogEntry
+		var err1, err2, errC error
+		var viaLeaf *x509.Certificate
+		if pan := verifkit.Guard(func() {
+			e1, err1 = LogEntryFromLeaf(idx, le)
+			if rle, rerr := RawLogEntryFromLeaf(idx, le); rerr == nil {
+				e2, err2 = rle.ToLogEntry()
+				if c.etype == X509LogEntryType {
+					viaLeaf, errC = rle.Leaf.X509Certificate()
+				} else {
+					viaLeaf, errC = rle.Leaf.Precertificate()
+				}
+			} else {
+				err2, errC = rerr, rerr
+			}
+		}); pan != "" {
+			g.out.Fail("panic nonfatal-entry "+key, pan)
+			continue
+		}
+		for _, q := range []struct {
+			what string
+			e    *LogEntry
+			err  error
+		}{{"LogEntryFromLeaf", e1, err1}, {"RawLogEntry.ToLogEntry", e2, err2}} {
+			switch {
+			case q.e == nil || x509.IsFatal(q.err):
+				g.out.Fail("nonfatal-entry "+key, fmt.Sprintf("%s on valid leaf_input / extra_data: entry nil=%v, err=%v, x509.IsFatal(err)=%v — the entry is lost to GetEntries / the scanner", q.what, q.e == nil, q.err, x509.IsFatal(q.err)))
+			case !c.soft && q.err != nil:
+				g.out.Fail("nonfatal-entry "+key, fmt.Sprintf("%s reports err=%v for a certificate the parser has no complaint about", q.what, q.err))
+			case c.etype == X509LogEntryType && (q.e.X509Cert == nil || !bytes.Equal(q.e.X509Cert.Raw, c.chain[0].Raw)):
+				g.out.Fail("nonfatal-entry "+key, q.what+": X509Cert is not the logged certificate")
+			case c.etype == PrecertLogEntryType && (q.e.Precert == nil || q.e.Precert.TBSCertificate == nil || !bytes.Equal(q.e.Precert.Submitted.Data, c.chain[0].Raw)):
+				g.out.Fail("nonfatal-entry "+key, q.what+": Precert is missing or is not the submitted precertificate")
+			case q.e.Index != idx:
+				g.out.Fail("nonfatal-entry "+key, q.what+": wrong index")
+			}
+		}
+		if viaLeaf == nil || x509.IsFatal(errC) || (!c.soft && errC != nil) {
+			g.out.Fail("nonfatal-entry "+key, fmt.Sprintf("MerkleTreeLeaf.X509Certificate/Precertificate on a valid leaf: cert nil=%v, err=%v, x509.IsFatal(err)=%v", viaLeaf == nil, errC, x509.IsFatal(errC)))
+		}
 	}
 }
 
